@@ -94,6 +94,7 @@ class FilterEdge(StaticGraph, StaticEdge):
 
     def _evaluate(self, inputs: Sequence) -> Tuple:
         keys, = inputs
-        return tuple(filter(self.graph, tqdm(
+        # a list, not `filter(...)`: a StopIteration raised by the predicate must not silently end the ids
+        return tuple([key for key in tqdm(
             keys, desc='Filtering', disable=not self.verbose,
-        )))
+        ) if self.graph(key)])
